@@ -277,6 +277,76 @@ def check_getters(rep, ctx):
         rep.functions_encoded.append(w)
 
 
+def check_state_string(rep, ctx):
+    """KeyStatus::get_secure_channel_state (v2.0): the WireServer and IMDS segments of the state string are decided by the
+    mode of their OWN rule item, so a change of either mode changes the reported state (which is what triggers the policy update)."""
+    w = ctx.method("KeyStatus", "get_secure_channel_state")
+    eng = ctx.engine()
+    paths = eng.explore(w)
+    rep.functions_encoded.append(w)
+    ar_idx = ctx.field("KeyStatus", "authorizationRules")
+    n = 0
+    for i, r in enumerate(paths):
+        ret = r.ret
+        if not (isinstance(ret, Agg) and ret.name == "fmt::Formatted"):
+            continue
+        leaves = [origin(l) for l in fmt_leaves(ret)]
+        lits = [l.e.as_string() for l in leaves if isinstance(l, StrV)]
+        n += 1
+        me = origin(r.args[0]).child("*")
+        rules = me.child(("f", ar_idx)).child(("v", "Some", 0))
+        lows = [e for e in r.events if e.kind == "call" and e.callee.endswith("to_lowercase")]
+        for seg, field in (("WireServer", "wireserver"), ("IMDS", "imds")):
+            lit = [x for x in lits if x.strip().startswith(seg + " ")]
+            if len(lit) != 1:
+                rep.add(Query("state string path %d: one %s segment" % (i, seg), "violated", str(lits), 0, "mirsym", key="C09.state-string:" + seg, reproduced=None))
+                continue
+            word = lit[0].strip().split(" ", 1)[1].lower()
+            item_opt = rules.child("*").child(("f", ctx.field("AuthorizationRules", field))) if False else None
+            # the lower-cased mode of THIS endpoint's item on this path (if the item is present)
+            mine = [e for e in lows if _mode_of(ctx, e.rargs[0], rules, field)]
+            present = _present_flag(ctx, r, rules, field)
+            m = mine[0].ret.string() if mine else z3.String("unread_mode_%s_%d" % (field, i))
+            valid = z3.Or(m == z3.StringVal("enforce"), m == z3.StringVal("audit"), m == z3.StringVal("disabled"))
+            pres = present if present is not None else z3.Bool("unread_presence_%s_%d" % (field, i))
+            want = z3.If(z3.Not(pres), z3.StringVal("disabled"), m)
+            bad = add_query(rep, "state string path %d: the %s segment says %s exactly when that endpoint's own item has that mode (absent item = disabled)" % (i, seg, word),
+                            r.pc + [valid, want != z3.StringVal(word)], key="C09.state-string:" + seg)
+            if bad:
+                rep.add(Query("state string path %d: %s segment does not follow the %s item's mode" % (i, seg, field), "violated", "segment %r, model %s" % (lit[0], bad[0]), bad[1], "mirsym+z3",
+                              key="C09.state-string:" + seg, model=bad[0], reproduced=None))
+    rep.add(Query("witness: state string paths with three segments", "witness-hit" if n else "witness-missed", "%d" % n, 0, "mirsym"))
+
+
+def _mode_of(ctx, v, rules, field):
+    """v is the `mode` of the item stored under authorizationRules.<field>"""
+    o = origin(v)
+    chain = []
+    cur = o
+    for _ in range(12):
+        if isinstance(cur, Sym) and cur.tag[0] == "part":
+            chain.append(cur.tag[2]); cur = origin(cur.tag[1])
+        else:
+            break
+    fidx = ("f", ctx.field("AuthorizationRules", field))
+    midx = ("f", ctx.field("AuthorizationItem", "mode"))
+    return fidx in chain and midx in chain and (cur is rules.root() or same_origin(cur, rules) or is_part_of(o, rules))
+
+
+def _present_flag(ctx, r, rules, field):
+    """z3 Bool: authorizationRules.<field> is Some, if the path looked at it"""
+    fidx = ("f", ctx.field("AuthorizationRules", field))
+    for c in r.pc:
+        pass
+    # the Option value itself
+    cand = [rules.child("*").child(fidx), rules.child(fidx)]
+    for c in cand:
+        d = c.discr()
+        if any(str(d) in str(x) for x in r.pc):
+            return d == 1
+    return None
+
+
 def check(rep, tier, seed):
     ctx = Ctx("agent")
     rep.extra["mir_dump"] = {"cache_hit": ctx.dump.cache_hit, "tree_hash": ctx.dump.hash, "seconds": round(ctx.dump.seconds, 1)}
@@ -285,9 +355,10 @@ def check(rep, tier, seed):
     check_state_section(rep, ctx)
     check_wrappers(rep, ctx)
     check_getters(rep, ctx)
+    check_state_string(rep, ctx)
     rep.assumptions += ["the host's rule id identifies the rule content (rules are re-read only when the id changes)", "actor round-trips succeed in the convergence claim (a failed internal send is logged and retried by a later change)",
                         "Future::poll returns Ready"]
-    rep.outside_claim += ["timing of polls", "the mode/state string getters' text logic beyond the endpoint mapping", "redirector map writes (C06)"]
+    rep.outside_claim += ["timing of polls", "rule items whose mode is none of enforce/audit/disabled (the state string calls them Disabled while get_*_mode returns the raw text)", "redirector map writes (C06)"]
     rep.trusted += ["mirsym", "z3"]
 
 
